@@ -210,6 +210,7 @@ def harnesses(tier):
         add(3, 3, allp(3), ["asc", "desc"], nested=True)
         add(3, 2, [(0, 1, 2), (2, 0, 1)], ["asc", "desc", "rot"], files=2)
         add(4, 3, [(0, 1, 2, 3), (3, 2, 1, 0), (1, 3, 0, 2), (2, 0, 3, 1)], ["asc"], nested=True)
+        add(3, 4, [(0, 1, 2), (2, 0, 1)], ["asc", "desc"])     # a peptide shared by three mutually incomparable groups needs four peptides
     else:
         add(4, 3, allp(4), ["asc", "desc"], nested=True)
         add(4, 4, [(0, 1, 2, 3), (3, 2, 1, 0), (1, 3, 0, 2), (2, 0, 3, 1), (2, 3, 1, 0)], ["asc", "desc"], nested=True)
